@@ -170,8 +170,8 @@ func (s *vc17Scratch) caseDir() string {
 	return d
 }
 
-func vc17CopyTree(src, dst string) {
-	err := filepath.Walk(src, func(p string, info os.FileInfo, err error) error {
+func vc17CopyTreeErr(src, dst string) error {
+	return filepath.Walk(src, func(p string, info os.FileInfo, err error) error {
 		if err != nil {
 			return err
 		}
@@ -186,7 +186,11 @@ func vc17CopyTree(src, dst string) {
 		}
 		return ioutil.WriteFile(target, b, 0600)
 	})
-	if err != nil {
+}
+
+// only for the harness' own goroutine: a panic in a goroutine of the code under test would take the process down
+func vc17CopyTree(src, dst string) {
+	if err := vc17CopyTreeErr(src, dst); err != nil {
 		panic(err)
 	}
 }
@@ -472,7 +476,8 @@ func (v *vC17View) Shutdown(context.Context) error {
 	v.down = true
 	df := v.cfg.GetDataFolder()
 	if _, err := os.Stat(df); err == nil && v.snap && !vc17HasSnapshot(df) {
-		vc17CopyTree(filepath.Join(v.scratch.template, "snapshots"), filepath.Join(df, "snapshots"))
+		// called from goroutines of the code under test (watchPeers -> Shutdown): never panic here
+		_ = vc17CopyTreeErr(filepath.Join(v.scratch.template, "snapshots"), filepath.Join(df, "snapshots"))
 	}
 	return nil
 }
@@ -504,6 +509,7 @@ type vC17Rig struct {
 	probe   *Cluster
 	cancels []context.CancelFunc
 	gaveUp  [vc17NPeers]bool
+	all     []*Cluster // every Cluster object of this script, earlier incarnations included
 }
 
 func (rg *vC17Rig) running(i int) bool {
@@ -557,6 +563,7 @@ func (rg *vC17Rig) start(i int, ready bool) {
 		cl.allocator = ascendalloc.NewAllocator()
 	}
 	rg.cls[i] = cl
+	rg.all = append(rg.all, cl)
 	rg.views[i] = view
 	// as run() does
 	cl.wg.Add(1)
@@ -691,6 +698,13 @@ func vC17RunFake(c *vC17Case) (obs *vC17Obs, term string, panicked interface{}) 
 	defer func() {
 		for _, cancel := range rg.cancels {
 			cancel()
+		}
+		// nothing of this script may still be at work on its folders when they are removed: every watcher has returned and a
+		// Shutdown it may have started has run to its end (Shutdown holds shutdownLock throughout)
+		for _, cl := range rg.all {
+			cl.wg.Wait()
+			cl.shutdownLock.Lock()
+			cl.shutdownLock.Unlock()
 		}
 		os.RemoveAll(rg.base)
 	}()
